@@ -249,7 +249,8 @@ pub fn run_cross(rng: &mut Rng, count: usize, thorough: bool, extra: &[String], 
             let encs = encoders_for(sem, "DS");
             let mut enc = *rng.pick(&encs);
             if enc == "exp_co" && heavy_for_exp { enc = "hyb_co"; }
-            let len = rng.range(4, 8);
+            // mostly 4-8 queries on the one object; one sequence in ten is LONG (9-40 queries)
+            let len = if rng.chance(1, 10) { rng.range(9, 40) } else { rng.range(4, 8) };
             let mut qs: Vec<Q> = Vec::new();
             for _ in 0..len {
                 if !qs.is_empty() && rng.chance(1, 4) {
